@@ -16,6 +16,7 @@ CONSTANTS Fams,        \* subset of {"strings", "shapes", "docs"}
           ValAlpha,    \* code points for rich values
           RichLen,     \* one rich string per tree: length <= RichLen
           PairNameAlpha, PairValAlpha, PairLen,   \* two rich strings per tree
+          ShapeNames, ShapeVals,   \* the strings of the shape family (as sets of code point tuples)
           ShapeDepth,  \* 1 or 2: depth of the blocks in the shape family
           DocAlpha,    \* token symbols
           DocLen       \* documents of at most DocLen symbols
@@ -37,29 +38,31 @@ RichN == StrUpTo(NameAlpha, RichLen)
 RichV == StrUpTo(ValAlpha, RichLen)
 PairN == StrUpTo(PairNameAlpha, PairLen)
 PairV == StrUpTo(PairValAlpha, PairLen)
-StringDocs ==
-         {RootDoc(<<Leaf(s, SB, 0), Leaf(SA, <<>>, 0)>>) : s \in RichN}                          \* leaf name
-    \cup {RootDoc(<<Leaf(SA, s, 0), Leaf(SA, SB, 0)>>) : s \in RichV}                            \* leaf value
-    \cup {RootDoc(<<Block(s, <<Leaf(SA, SB, 0)>>, 0), Leaf(SC, SA, 0)>>) : s \in RichN}          \* block name
-    \cup {RootDoc(<<Block(s, <<>>, 0)>>) : s \in RichN}                                          \* empty block
-    \cup {RootDoc(<<Block(SA, <<Block(s, <<Leaf(s, SB, 0)>>, 0)>>, 0)>>) : s \in RichN}          \* nested
-    \cup {NodeDoc(Block(s, <<Leaf(SA, SB, 0)>>, 0)) : s \in RichN}                               \* not a root
-    \cup {NodeDoc(Leaf(SA, s, 0)) : s \in RichV}
-    \cup {RootDoc(<<Leaf(x, y, 0)>>) : x \in PairN, y \in PairV}
-    \cup {RootDoc(<<Block(x, <<Leaf(y, <<>>, 0)>>, 0)>>) : x \in PairN, y \in PairN}
+\* (kept as separate sets: TLC enumerates a union of large sets quadratically)
+StringFam == <<
+    {RootDoc(<<Leaf(s, SB, 0), Leaf(SA, <<>>, 0)>>) : s \in RichN},                          \* leaf name
+    {RootDoc(<<Leaf(SA, s, 0), Leaf(SA, SB, 0)>>) : s \in RichV},                            \* leaf value
+    {RootDoc(<<Block(s, <<Leaf(SA, SB, 0)>>, 0), Leaf(SC, SA, 0)>>) : s \in RichN},          \* block name
+    {RootDoc(<<Block(s, <<>>, 0)>>) : s \in RichN},                                          \* empty block
+    {RootDoc(<<Block(SA, <<Block(s, <<Leaf(s, SB, 0)>>, 0)>>, 0)>>) : s \in RichN},          \* nested
+    {NodeDoc(Block(s, <<Leaf(SA, SB, 0)>>, 0)) : s \in RichN},                               \* not a root
+    {NodeDoc(Leaf(SA, s, 0)) : s \in RichV},
+    {RootDoc(<<Leaf(x, y, 0)>>) : x \in PairN, y \in PairV},
+    {RootDoc(<<Block(x, <<Leaf(y, <<>>, 0)>>, 0)>>) : x \in PairN, y \in PairN} >>
 
 (* ---- family "shapes": every small shape, names a/A, values ""/b ------------- *)
-ShapeNames == {SA, SUA}
-ShapeVals == {<<>>, SB}
+ShapeNamesFull == {SA, SUA}
+ShapeValsFull == {<<>>, SB}
+ShapeValsSmall == {<<>>}
 Seqs(S, lo, hi) == UNION {[1..n -> S] : n \in lo..hi}
 N0 == {Leaf(n, v, 0) : n \in ShapeNames, v \in ShapeVals} \cup {Block(n, <<>>, 0) : n \in ShapeNames}
 N1 == N0 \cup {Block(n, k, 0) : n \in ShapeNames, k \in Seqs(N0, 1, 2)}
 N2 == {Block(n, k, 0) : n \in ShapeNames, k \in Seqs(N1, 1, 2)}
-ShapeDocs ==
-         {RootDoc(k) : k \in Seqs(N1, 0, 2)}
-    \cup {NodeDoc(nd) : nd \in N1}
-    \cup (IF ShapeDepth >= 2 THEN {RootDoc(<<nd>>) : nd \in N2} \cup {RootDoc(<<nd, Leaf(SA, SB, 0)>>) : nd \in N2}
-          ELSE {})
+ShapeFam == <<
+    {RootDoc(k) : k \in Seqs(N1, 0, 2)},
+    {NodeDoc(nd) : nd \in N1},
+    IF ShapeDepth >= 2 THEN {RootDoc(<<nd>>) : nd \in N2} ELSE {},
+    IF ShapeDepth >= 2 THEN {RootDoc(<<nd, Leaf(SA, SB, 0)>>) : nd \in N2} ELSE {} >>
 
 RtJobs(docs) == {[kind |-> "rt", doc |-> d, o |-> o, syms |-> <<>>, po |-> DefaultParse] : d \in docs, o \in SerOpts}
 
@@ -102,15 +105,13 @@ DocOpts(syms) == {PO(sl, sb, FALSE, TRUE) : sl \in BOOLEAN, sb \in BOOLEAN}
 DocJobs == UNION {{[kind |-> "doc", doc |-> RootDoc(<<>>), o |-> DefaultSer, syms |-> y, po |-> p] : p \in DocOpts(y)}
                   : y \in DocSyms}
 
-Jobs == (IF "strings" \in Fams THEN RtJobs(StringDocs) ELSE {})
-        \cup (IF "shapes" \in Fams THEN RtJobs(ShapeDocs) ELSE {})
-        \cup (IF "docs" \in Fams THEN DocJobs ELSE {})
-
-\* the size of the family, for the coverage handshake with the harness
-ASSUME PrintT(ToJson([tag |-> "COUNT", jobs |-> Cardinality(Jobs), branches |-> Cardinality(Branches)]))
+\* the branch labels of the parse loop, for the vacuity check of the harness
+ASSUME PrintT(ToJson([tag |-> "BRANCHES", all |-> Branches]))
 
 (* ---- the machine ------------------------------------------------------------ *)
-Init == /\ job \in Jobs
+Init == /\ \/ "strings" \in Fams /\ \E i \in 1..Len(StringFam) : job \in RtJobs(StringFam[i])
+           \/ "shapes" \in Fams /\ \E i \in 1..Len(ShapeFam) : job \in RtJobs(ShapeFam[i])
+           \/ "docs" \in Fams /\ job \in DocJobs
         /\ ph = "start" /\ text = <<>> /\ toks = <<>> /\ st = PInit /\ hist = <<>>
 
 DoSerialise == /\ ph = "start" /\ job.kind = "rt"
@@ -122,13 +123,19 @@ DoRender == /\ ph = "start" /\ job.kind = "doc"
 DoLex == /\ ph = "text"
          /\ toks' = Lex(text, job.po.lex)
          /\ ph' = "parsing" /\ UNCHANGED <<job, text, st, hist>>
-\* one iteration of the token loop of Keyvalues.parse
-DoStep == /\ ph = "parsing"
+\* a serialised tree: the whole token loop at once
+DoParse == /\ ph = "parsing" /\ job.kind = "rt"
+           /\ st' = Parse(toks, job.po)
+           /\ hist' = <<st'.br>>
+           /\ ph' = "done"
+           /\ UNCHANGED <<job, text, toks>>
+\* a document of the parse family: one iteration of the token loop of Keyvalues.parse
+DoStep == /\ ph = "parsing" /\ job.kind = "doc"
           /\ st' = Step(st, toks, job.po)
           /\ hist' = Append(hist, st'.br)
           /\ ph' = IF st'.done THEN "done" ELSE "parsing"
           /\ UNCHANGED <<job, text, toks>>
-Next == DoSerialise \/ DoRender \/ DoLex \/ DoStep
+Next == DoSerialise \/ DoRender \/ DoLex \/ DoParse \/ DoStep
 Spec == Init /\ [][Next]_vars
 
 (* ---- the listed property --------------------------------------------------- *)
@@ -138,12 +145,12 @@ RoundTrip == (IsRt /\ ph = "done") =>
                 /\ st.res.ok /\ st.res.root
                 /\ NoLineSeq(st.res.node.k) = RoundTripKids(job.doc)
 \* the options change nothing but blanks outside the quoted strings
-WhitespaceOnly == (IsRt /\ ph # "start") =>
+WhitespaceOnly == (IsRt /\ ph = "text") =>
                     /\ Squeeze(text) = Squeeze(Serialise(job.doc, DefaultSer))
                     /\ NoBlanks(text) = NoBlanks(Serialise(job.doc, DefaultSer))
 (* ---- what makes it hold ------------------------------------------------------ *)
 \* no string content ever leaks out of its quotes: the token kinds are those of the shape
-TokenShape == (IsRt /\ ph \in {"parsing", "done"}) => TokKinds(toks) = Skeleton(job.doc)
+TokenShape == (IsRt /\ ph = "parsing") => TokKinds(toks) = Skeleton(job.doc)
 \* a writer that leaves block names unescaped produces this text exactly when no block name
 \* contains a character that needs escaping (sanity of the deviation KV1Trace recognises)
 RawBlockNames == (IsRt /\ ph = "text") =>
@@ -156,11 +163,11 @@ LinesIncrease == (IsRt /\ ph = "done" /\ st.res.ok) =>
                     LET ls == FoldLeft(LAMBDA acc, kid : acc \o Lines(kid), <<>>, st.res.node.k)
                     IN  \A i \in 1..(Len(ls) - 1) : ls[i] < ls[i + 1]
 (* ---- the parse machine -------------------------------------------------------- *)
-DocLexes == (job.kind = "doc" /\ ph \in {"parsing", "done"}) => TokKinds(toks) = RenderKinds(job.syms)
+DocLexes == (job.kind = "doc" /\ ph = "parsing" /\ hist = <<>>) => TokKinds(toks) = RenderKinds(job.syms)
 \* the loop ends: with EOF (or an error) as the last token, at most one iteration per token
-Terminates == ph = "parsing" => (st.pos <= Len(toks) /\ Len(hist) < Len(toks))
+Terminates == (ph = "parsing" /\ job.kind = "doc") => (st.pos <= Len(toks) /\ Len(hist) < Len(toks))
 \* the folded Parse the record validator uses is this machine
-ParseAgrees == ph = "done" => Parse(toks, job.po).res = st.res
+ParseAgrees == (ph = "done" /\ job.kind = "doc") => Parse(toks, job.po).res = st.res
 StackOK == /\ (ph = "parsing" => Depth(st) >= 1 /\ ~st.stack[1].skip)
            /\ (st.bl = "expect" => (Len(TopKids(st)) >= 1 /\ ~LastKid(st).leaf /\ LastKid(st).k = <<>>))
 \* a document without flags that parses as a whole file has balanced braces and keeps every name
